@@ -836,9 +836,22 @@ func revocationFinalResult(certResults []*revocationresult.CertRevocationResult,
 	var problematicCertSubject string
 	revokedFound := false
 	var revokedCertSubject string
+	if len(certResults) != len(certChain) {
+		// the validator did not report on every certificate of the chain
+		if len(certChain) > 0 {
+			problematicCertSubject = certChain[0].Subject.String()
+		}
+		return revocationresult.ResultUnknown, problematicCertSubject
+	}
 	for i := len(certResults) - 1; i >= 0; i-- {
 		cert := certChain[i]
 		certResult := certResults[i]
+		if certResult == nil {
+			// nothing was reported for this certificate
+			finalResult = revocationresult.ResultUnknown
+			problematicCertSubject = cert.Subject.String()
+			continue
+		}
 		if certResult.RevocationMethod == revocationresult.RevocationMethodOCSPFallbackCRL {
 			// log the fallback warning
 			logger.Warnf("OCSP check failed with unknown error and fallback to CRL check for certificate #%d in chain with subject %q", (i + 1), cert.Subject)
